@@ -80,7 +80,7 @@ PROPS = {
         'must_observe': ['base_pool_completed', 'lookups', 'triples', 'string_representation_pairs', 'non_key_needles'],
     },
     'C16': {
-        'scale': {'quick': 4, 'thorough': 3},
+        'scale': {'quick': 2, 'thorough': 3},
         'level': 'exploration',
         'technique': 'in-harness contract checker over real renders: unique element ids make permutation, stability, first-occurrence and partition checks exact; model equality/order written from the docs',
         'claim': 'Arrays of 0-200 elements (around and beyond the 20-element merge threshold of slice::sort) over mixed kinds, duplicates across numeric encodings, nested arrays/maps, none and '
@@ -135,10 +135,10 @@ PROPS = {
         'claim': '55 fault kinds (26 render-time, 16 syntax, 5 add-time references, 8 unterminated constructs) x 7 placements (entry top level, block of parent, block of child with super(), included, component body, '
                  'included of included, component called from an included template) x random multi-byte/CRLF/blank-line filler before and after, one render/build fault in four spread over several lines, in both registration orders. Checked: template name, span inside the source on '
                  'character boundaries, line/column = position of the byte range, span touches the offending token and stays inside the faulty construct, Display succeeds with `--> name:line:col` and the quoted line, '
-                 'one call-site note per call site naming the calling templates in order and designating a line:column inside the call construct, with the call sites at the top level or inside filter sections, set-blocks, loops, ifs and component bodies.',
+                 'one call-site note per call site naming the calling templates in order and designating a line:column inside the call construct, with the call sites at the top level or inside filter sections, set-blocks, loops, ifs and component bodies. One case in twelve registers 2-4 faulty children in one batch (orphan top-level blocks, unknown filters/tests/functions/include targets, 1-2 per template): the combined report must hold one entry per fault, each with its own template name, line:column and quoted line.',
         'note': 'the per-fault token table is kept by hand and calibrated on the pinned tree (every fault kind yields a located error there); a zero-width span on the first byte of the offending token counts as touching it; resource-limit errors (un-located Msg) are outside this property',
         'rule': "one evaluation = one injected fault; a cell = (fault class, fault kind, placement, line class [first/later line, multi-byte text before the fault on its line, column 0])",
-        'must_observe': ['spans_checked_with_coordinates', 'build_reports_checked', 'display_calls', 'call_site_positions_checked', 'faults_spread_over_lines'],
+        'must_observe': ['spans_checked_with_coordinates', 'build_reports_checked', 'display_calls', 'call_site_positions_checked', 'faults_spread_over_lines', 'multi_template_build_reports'],
     },
     'C19': {
         'scale': {'quick': 2, 'thorough': 3},
